@@ -18,6 +18,7 @@ type SpecEnv struct {
 	st       *State // state receiving side assumptions (type invariants of reads); may be nil
 	depth    int
 	macros   map[string]SExpr // contract-level `let` definitions, expanded where used
+	gh       map[string]Val   // ghost-state snapshot overriding st.gh (the entry environment used by old())
 }
 
 type specFail struct{ msg string }
@@ -25,7 +26,7 @@ type specFail struct{ msg string }
 func sfail(format string, a ...any) { panic(specFail{fmt.Sprintf(format, a...)}) }
 
 func (e *SpecEnv) child() *SpecEnv {
-	n := &SpecEnv{names: map[string]Val{}, old: e.old, pkg: e.pkg, typeArgs: e.typeArgs, st: e.st, depth: e.depth, macros: e.macros}
+	n := &SpecEnv{names: map[string]Val{}, old: e.old, pkg: e.pkg, typeArgs: e.typeArgs, st: e.st, depth: e.depth, macros: e.macros, gh: e.gh}
 	for k, v := range e.names {
 		n.names[k] = v
 	}
@@ -556,6 +557,26 @@ func (f *Frame) specCall(x *SCall, env *SpecEnv) Val {
 				a = Val{T: fmt.Sprintf("(ite (%s %s %s) %s %s)", op, a.T, b.T, a.T, b.T)}
 			}
 			return a
+		case "bigval":
+			// bigval(x): mathematical value of a *big.Int in the current (or, under old(), entry) heap
+			v := f.specEval(x.Args[0], env)
+			var heap string
+			if env.gh != nil {
+				heap = env.gh[bigHeapKey].T
+			} else if env.st != nil {
+				heap = env.st.gh[bigHeapKey].T
+			}
+			if heap == "" {
+				sfail("bigval() used where no big-int heap is in scope")
+			}
+			return Val{T: fmt.Sprintf("(select %s %s)", heap, v.T)}
+		case "bigfresh":
+			// bigfresh(x): x was allocated during this call (not live at entry)
+			v := f.specEval(x.Args[0], env)
+			if env.old == nil || env.old.gh == nil {
+				sfail("bigfresh() outside a postcondition")
+			}
+			return Val{T: fmt.Sprintf("(>= %s %s)", v.T, env.old.gh[bigNextKey].T), IsBool: true}
 		case "zero":
 			// zero(T): the zero value of a Go type
 			t := f.resolveType(env, x.Args[0].String())
